@@ -3,7 +3,7 @@ ENGINES = [
     {"name": "E2", "path": "mc/props/c06.py", "kind_free_text": "explicit-state breadth-first search over call histories of a real Record (state = history replayed on a fresh object, canonical state hash, invariants in every state, differential oracles)",
      "serves_properties": ["C06", "C08"]},
     {"name": "E1", "path": "mc/engine/core.py", "kind_free_text": "bounded exhaustive input enumeration of the real functions against set-of-bases / truth-table reference models, sharded over processes",
-     "serves_properties": ["C01", "C02", "C03", "C04", "C05", "C07", "C08", "C09", "C15"]},
+     "serves_properties": ["C01", "C02", "C03", "C04", "C05", "C07", "C08", "C09", "C15", "C16"]},
 ]
 NOT_APPLICABLE = {}
 CHECKS = {
@@ -70,4 +70,11 @@ CHECKS = {
                      "and extract to exactly the ORF; find_all_orfs on tiny records with <=2 genes, three area kinds and three overlaps must only return "
                      "valid ORFs outside gene interiors with matching translations.",
                 note="Alphabet argument: other letters only act as 'not a start/stop'; minimum-length band between with/without stop codon accepted either way; gap search judged for soundness only."),
+    "C16": dict(engine="E1", level="exploration", ref="DESIGN.md 5/C16",
+                technique="bounded exhaustive enumeration of ordered identifier lists from an adversarial pool through the real pre-processing; post-conditions of the statement",
+                text="Every ordered list of <=3 (<=4 from a sub-pool) record ids from a pool built around each sanitising step (duplicates, ids equal after "
+                     "removing illegal characters, equal 7/12-character prefixes, ids equal to another's shortened form, versioned accessions, contig/scaffold "
+                     "numbers) with both header settings goes through the real pre_process_sequences in-process; ids must be pairwise distinct, legal, "
+                     "<= 16 characters unless long headers are allowed, and remember their original. Gene names: every ordered triple of a 9-entry menu through add_cds_feature.",
+                note="Pool of 44 ids; no-op gene finding module; only record ids (not names) are judged for length/legality, as in the statement."),
 }
